@@ -77,21 +77,49 @@ def run(ctx):
     ctx.rule('R18.2', 'gen_range is never called with an empty range when the arc has positive width')
     ctx.rule('R18.3', 'slot i of the returned vector is sampled from (from[i], to[i])')
     ra, cands = find_sampler(ctx)
-    ctx.require(len(cands) >= 6 and len({c[2].path for c in cands}) == 1, 'six calls of one per-joint sampler fn(f64,f64)->f64 in random_angles')
+    loop_form = len(cands) == 1
+    ctx.require((len(cands) >= 6 or loop_form) and len({c[2].path for c in cands}) == 1,
+                'calls of one per-joint sampler fn(f64,f64)->f64 in random_angles (six, or one inside a loop over the joints)')
     sampler = cands[0][2]
     ctx.fn(sampler)
     # ---- R18.3 glue
     ret = strip(ra.return_term())
-    ok = isinstance(ret, tuple) and ret[0] == 'agg' and ret[1] == 'array' and len(ret) == 8
-    if ctx.check(ok, 'R18.3', 'shape', ra.where(0), ra.path, 'random_angles must return an array of six sampled values'):
-        for i, e in enumerate(ret[2:]):
-            e = strip(e)
-            good = isinstance(e, tuple) and e[0] == 'call' and e[1] == sampler.path
-            if good:
-                a, b = strip(e[2]), strip(e[3])
-                good = (isinstance(a, tuple) and a[0] == 'idx' and util.const_val(a[2]) == i and strip(a[1])[0] == 'fld' and strip(a[1])[2] == 'from' and
-                        isinstance(b, tuple) and b[0] == 'idx' and util.const_val(b[2]) == i and strip(b[1])[0] == 'fld' and strip(b[1])[2] == 'to')
-            ctx.check(good, 'R18.3', 'slot%d' % i, ra.where(0), ra.path, 'slot %d must be sampled from (self.from[%d], self.to[%d])' % (i, i, i), found=show(e, maxdepth=5))
+
+    def slot_args(e, want):
+        """e == sampler(self.from[k], self.to[k]) with k == want (a constant or a term)"""
+        e = strip(e)
+        if not (isinstance(e, tuple) and e[0] == 'call' and e[1] == sampler.path):
+            return False
+        a, b = strip(e[2]), strip(e[3])
+
+        def side(x, name):
+            if not (isinstance(x, tuple) and x[0] == 'idx' and util.is_self_field(x[1], name)):
+                return False
+            return util.const_val(x[2]) == want if isinstance(want, int) else strip(x[2]) == want
+        return side(a, 'from') and side(b, 'to')
+
+    if loop_form:
+        # out[k] = sampler(self.from[k], self.to[k]) for k in 0..6, `out` returned
+        from .C16 import partial_writes
+        ws = partial_writes(ra, lambda lhs, i, j: len(lhs['proj']) == 1 and ra.local_ty(lhs['local']) == '[f64; 6]')
+        ok = False
+        found = None
+        if len(ws) == 1:
+            i, j, it, v = ws[0]
+            k_t = strip(it)
+            src = util.loop_source(it)
+            r = util.range_of(src) if src is not None else None
+            full = r is not None and util.const_val(r[0]) == 0 and util.const_val(r[1]) == 6 and r[2] in ([], ['into_iter'])
+            lhs_local = [st['lhs']['local'] for bi, sj, st in ra.stmts() if (bi, sj) == (i, j)][0]
+            returned = isinstance(ret, tuple) and ret[0] in ('var', 'mutb') and ra.name_of(lhs_local) is not None and ra.name_of(lhs_local) in show(ret)
+            ok = full and returned and slot_args(v, k_t)
+            found = 'slot %s := %s, k from %s' % (show(it, maxdepth=4), show(v, maxdepth=5), show(src, maxdepth=4) if src else None)
+        ctx.check(ok, 'R18.3', 'slots(loop)', ra.where(0), ra.path, 'slot k must be sampled from (self.from[k], self.to[k]) for every k in 0..6', found=found)
+    else:
+        ok = isinstance(ret, tuple) and ret[0] == 'agg' and ret[1] == 'array' and len(ret) == 8
+        if ctx.check(ok, 'R18.3', 'shape', ra.where(0), ra.path, 'random_angles must return an array of six sampled values'):
+            for i, e in enumerate(ret[2:]):
+                ctx.check(slot_args(e, i), 'R18.3', 'slot%d' % i, ra.where(0), ra.path, 'slot %d must be sampled from (self.from[%d], self.to[%d])' % (i, i, i), found=show(strip(e), maxdepth=5))
 
     # ---- R18.1 / R18.2
     deg = math.pi / 180
